@@ -19,7 +19,6 @@ PROP_UNITS = {
     'C04': ['tt', 'mate'],
     'C13': ['mate'],
     'C18': ['book'],
-    'C07': ['nn'],
 }
 
 
